@@ -22,7 +22,7 @@ pub fn mon() -> Mon {
     }
 }
 
-const OWNED: [&str; 4] = ["get-vendor", "no-response", "wrong-command", "malformed-response"];
+const OWNED: super::c13::Owned = super::c13::Owned { cats: &["get-vendor", "no-response", "wrong-command", "malformed-response"], cmds: &[0x06], must_answer: &[0x06] };
 
 fn vendor_req(own: u8, rng: &mut Rng, sel: u8) -> Vec<u8> {
     ctrl_request(own & 0x7F, rng.byte() & 0x7F, rng.byte() & 0x1F, false, 0x06, &[sel])
@@ -54,7 +54,7 @@ pub fn check_walk(cfgc: &CtxCfg, pre: &[Op], rng_seed: u64, rep: &mut Report) {
                 }
             };
             let vw = match view(&resp) {
-                Some(v) if v.pec_ok && v.count_ok && v.cmd == 0x06 => v,
+                Some(v) if v.cmd == 0x06 => v,
                 _ => {
                     rep.violation("walk:malformed-response", || format!("selector {}: response {}", sel, crate::json::hex(&resp)), case);
                     return;
